@@ -7,7 +7,8 @@
    "now" while open and is left behind for good once closed, then the final finish time) and
    [abs_left] (exact count, or -1 while a window is not closed). *)
 From Coq Require Import List ZArith Bool Arith Lia.
-From PV Require Import Model.SchedTree Proofs.SchedTreeProofs Proofs.SchedTreeSeq Proofs.SchedTreeRun Proofs.SchedTreeSpec.
+From PV Require Import Model.SchedTree Model.SchedConc Proofs.SchedTreeProofs Proofs.SchedTreeSeq Proofs.SchedTreeRun Proofs.SchedTreeSpec
+  Proofs.SchedConcSections Proofs.SchedConcProofs Proofs.SchedConcCor.
 Import ListNotations.
 Local Open Scope Z_scope.
 
@@ -139,6 +140,87 @@ Theorem C02_callback_exactly_once : forall evs : list (bool + Z),
 Proof. exact cb_run_exact. Qed.
 Print Assumptions C02_callback_exactly_once.
 
+(* ------------------------------------------------------------------ concurrent callers *)
+(* Model/SchedConc.v: any number of threads, each with any program of Next/Left calls, run
+   the atomic sections of composite.go (read-lock section with one child operation, write-lock
+   section with the re-check of len(scheds)) in ANY interleaving, every section reading any
+   clock value not before the previous one.  [ireach] = all finite interleavings; the ghost
+   history [i_log] records every operation at its linearisation point (the child operation that
+   decided its result).  [conc_conclusion] (Proofs/SchedConcCor.v): no section panics; the ghost
+   history is a legal sequential history of the abstract token stream (so every Left value is
+   abs_left at its linearisation point); every thread got exactly the results of its own
+   operations; all Next results are the successive answers of the stream. *)
+
+(* composite of leaves (step, instance_step, every user composite of once/const/line/unlimited) *)
+Theorem C02_conc_flat : forall fuel c0 lo0 ths st,
+  fresh c0 -> comp_len c0 <> 0%nat -> Forall is_leaf (children c0) -> (size c0 <= S fuel)%nat -> init_threads ths ->
+  ireach fuel {| i_g := {| g_c := c0; g_lo := lo0; g_threads := ths |};
+                 i_a := a_init (flatten c0); i_log := [] |} st ->
+  conc_conclusion fuel c0 lo0 ths st.
+Proof. exact conc_flat. Qed.
+Print Assumptions C02_conc_flat.
+
+Theorem C02_conc_flat_started : forall fuel c0 c1 lo0 t0 ths st,
+  fresh c0 -> comp_len c0 <> 0%nat -> Forall is_leaf (children c0) -> (size c0 <= S fuel)%nat -> init_threads ths ->
+  s_start t0 c0 = Ok c1 ->
+  ireach fuel {| i_g := {| g_c := c1; g_lo := lo0; g_threads := ths |};
+                 i_a := a_start t0 (a_init (flatten c0));
+                 i_log := [(0%nat, (lo0, OStart t0), RStart)] |} st ->
+  conc_conclusion fuel c0 lo0 ths st.
+Proof. exact conc_flat_started. Qed.
+Print Assumptions C02_conc_flat_started.
+
+(* PARTIAL (nested composites under concurrency): the same theorem for children of any shape,
+   where every operation of a child composite is ONE atomic step of the model.  For leaves this
+   is what do_at.go / unlilmited.go do (one atomic counter / clock operation); for a nested
+   composite child it is the assumption that the child is a linearizable object - which is
+   what C02_conc_flat proves for depth 1 - combined by the substitution principle for
+   linearizable objects (Herlihy & Wing 1990, locality), which is NOT mechanised here.
+   Sequential callers of nested trees are fully covered by C02_seq_refines; nested trees under
+   concurrent callers are additionally checked by the correspondence run (log checker). *)
+Theorem C02_conc_nested_partial : forall fuel c0 lo0 ths st,
+  fresh c0 -> comp_len c0 <> 0%nat -> (size c0 <= S fuel)%nat -> init_threads ths ->
+  ireach fuel {| i_g := {| g_c := c0; g_lo := lo0; g_threads := ths |};
+                 i_a := a_init (flatten c0); i_log := [] |} st ->
+  conc_conclusion fuel c0 lo0 ths st.
+Proof. exact conc_atomic_children. Qed.
+Print Assumptions C02_conc_nested_partial.
+
+(* every step of the uninstrumented system has its instrumented counterpart (the ghost
+   constrains nothing) *)
+Theorem C02_conc_ghost_erasable : forall fuel st g',
+  gstep fuel (i_g st) g' -> exists st', istep fuel st st' /\ i_g st' = g'.
+Proof. exact gstep_lift. Qed.
+Print Assumptions C02_conc_ghost_erasable.
+
+(* Consequences.  Exactly once: without unlimited parts the Next results of ALL threads, in
+   linearisation order, are the tokens of the schedule, each once, in order, then the finish. *)
+Theorem C02_conc_exactly_once : forall fuel c0 lo0 ths st,
+  conc_conclusion fuel c0 lo0 ths st -> existsb unknown_part (flatten c0) = false ->
+  exists p, let its := fst (items_from p (flatten c0)) in let f := snd (items_from p (flatten c0)) in
+    let n := length (next_nows (map evt (i_log st))) in
+    next_results (map eres (i_log st)) =
+    firstn n (map (fun x => (tok_time x, true)) its) ++ repeat (f, false) (n - length its).
+Proof. exact conc_exactly_once. Qed.
+Print Assumptions C02_conc_exactly_once.
+
+(* per-thread monotonicity for finite schedules with well-behaved leaves *)
+Theorem C02_conc_thread_mono : forall fuel c0 lo0 ths st,
+  conc_conclusion fuel c0 lo0 ths st -> existsb unknown_part (flatten c0) = false ->
+  Forall leaf_ok (flatten c0) -> Forall unstarted (flatten c0) ->
+  exists p, forall i th, nth_error (g_threads (i_g st)) i = Some th ->
+    nondecr p (next_results (t_hist th)).
+Proof. exact conc_thread_mono. Qed.
+Print Assumptions C02_conc_thread_mono.
+
+(* after exhaustion every call of every thread returns the same finish time *)
+Theorem C02_conc_finish_stable : forall fuel c0 lo0 ths st,
+  conc_conclusion fuel c0 lo0 ths st ->
+  exists f, forall j x, nth_error (next_results (map eres (i_log st))) j = Some x -> snd x = false ->
+    forall j' x', (j <= j')%nat -> nth_error (next_results (map eres (i_log st))) j' = Some x' -> x' = (f, false).
+Proof. exact conc_finish_stable. Qed.
+Print Assumptions C02_conc_finish_stable.
+
 (* ------------------------------------------------------------------ non-vacuity *)
 (* a nested tree with an unknown-length part in the middle: construction succeeds and the run
    is the one the stream predicts (clock 100: the 5 ns window [2,7) is closed) *)
@@ -156,4 +238,22 @@ Example C02_example_leaf_ok :
   Forall leaf_ok (flatten_cfg (instance_step 2 6 2 10)) /\ Forall unstarted (flatten_cfg (instance_step 2 6 2 10)).
 Proof.
   cbn. split; repeat constructor; cbn; intros; lia.
+Qed.
+
+(* a composite of two leaves with two threads: the initial state satisfies the hypotheses of
+   C02_conc_flat and the system can move (thread 1 runs its read section) *)
+Example C02_conc_example :
+  let c0 := Comp [DoAt 1 0 (fun _ => 0) 0 None; DoAt 1 0 (fun _ => 0) 0 None] (la_of [DoAt 1 0 (fun _ => 0) 0 None; DoAt 1 0 (fun _ => 0) 0 None]) false in
+  let ths := [{| t_pc := PIdle; t_todo := [ONext; OLeft]; t_hist := [] |}; {| t_pc := PIdle; t_todo := [ONext; ONext]; t_hist := [] |}] in
+  fresh c0 /\ comp_len c0 <> 0%nat /\ Forall is_leaf (children c0) /\ (size c0 <= 3)%nat /\ init_threads ths /\
+  thread_section 2 7 c0 {| t_pc := PIdle; t_todo := [ONext; ONext]; t_hist := [] |} =
+    Some (Ok (Comp [DoAt 1 0 (fun _ => 0) 1 (Some 7); DoAt 1 0 (fun _ => 0) 0 None] [1; 0] true, RetN 7 true)).
+Proof.
+  cbn zeta. split; [|split; [|split; [|split; [|split]]]].
+  - apply (fr_comp [DoAt 1 0 (fun _ => 0) 0 None; DoAt 1 0 (fun _ => 0) 0 None]); [repeat constructor|discriminate].
+  - cbn. discriminate.
+  - repeat constructor.
+  - cbn. lia.
+  - repeat constructor.
+  - reflexivity.
 Qed.
